@@ -191,6 +191,20 @@ pub fn observe<T: FromMeta + Peel>(m: &Meta) -> Observed {
     Observed { out, seen }
 }
 
+/// the same conversion entered through the element-level hook (`from_nested_meta` of a list item)
+pub fn observe_nested<T: FromMeta + Peel>(m: &Meta) -> Observed {
+    let mut seen = Seen {
+        spans: vec![],
+        originals: vec![],
+        structural: false,
+    };
+    let out = match T::from_nested_meta(&darling::ast::NestedMeta::Meta(m.clone())) {
+        Ok(v) => Out::Ok(v.peel(&mut seen)),
+        Err(e) => Out::Err(leaves(&e)),
+    };
+    Observed { out, seen }
+}
+
 pub fn observe_none<T: FromMeta + Peel>() -> Option<String> {
     let mut seen = Seen {
         spans: vec![],
@@ -205,6 +219,7 @@ pub struct Entry {
     pub chain: &'static [W],
     pub inner: &'static str,
     pub conv: fn(&Meta) -> Observed,
+    pub nested: fn(&Meta) -> Observed,
     pub none: fn() -> Option<String>,
 }
 
@@ -395,6 +410,14 @@ fn judge(table: &[Entry], base_idx: &HashMap<&'static str, usize>, text: &str, c
                     if *s != exp {
                         fail("spanned-value-range", format!("{} on `{text}`: SpannedValue span {:?}, the value's range is {:?}", e.name, s, exp));
                     }
+                }
+            }
+            // a list item that is a meta item converts the same way whichever entry point is used
+            if let Caught::Ok(o2) = catch(|| (e.nested)(&meta)) {
+                if o2.out != obs.out {
+                    fail("nested-entry-differs", format!("{} on `{text}`: from_nested_meta gives {:?}, from_meta {:?}", e.name, o2.out, obs.out));
+                } else if o2.seen.spans != obs.seen.spans {
+                    fail("nested-entry-span-differs", format!("{} on `{text}`: SpannedValue records {:?} through from_nested_meta and {:?} through from_meta", e.name, o2.seen.spans, obs.seen.spans));
                 }
             }
             let n_spanned = e.chain.iter().filter(|w| **w == W::Spanned).count();
